@@ -140,6 +140,12 @@ class MarkovSequence(Generic[N]):
 
     @classmethod
     def from_grid(cls, prior, *, grid, reverse: bool):
+        if len(np.shape(grid)) != 1:
+            msg = "The grid has an unexpected shape."
+            msg += " Expected: a one-dimensional array of time-points."
+            msg += f" Received: shape={np.shape(grid)}."
+            raise ValueError(msg)
+
         marginal = prior.init
 
         @func.partial(func.vmap, in_axes=(0, None))
